@@ -29,6 +29,7 @@ func checkC18(c *Ctx) {
 
 	c.Rule("C18/R8", "collected keys are sorted by a total order on the keys themselves: every slice of map keys gathered in a map range is sorted by a standard value sort, or by a comparator whose every comparison is between the elements' own components or their String/StringValues renderings (nothing lossy such as a normalised date, nothing stateful such as a projection's observation order) and which, for struct keys, compares every field")
 	c.Rule("C18/R9", "a summary is a function of its point's samples: every table in benchseries that remembers computed results is keyed by every input of the remembered computation, verbatim (a product of hashes is not the pair of samples)")
+	c.Rule("C18/R11", "Builder.Add files each fact under its own role: it ranges over the very slice ProjectValues returned, indexes result.Values with that loop's counter, nothing writes through the slice of unit keys; and a trial's baseline hash is stored only where the result's compare value equals the builder's denominator value")
 	c.Rule("C18/R10", "a point's place on the series axis is that of its own numerator hash: in the loop over a trial's numerator hashes the series stamp that is normalised is looked up under that hash (not taken once per trial or per builder)")
 	c.Rule("C18/R7", "no 0/0 in the bootstrap: every division by a resampled median in benchseries is reached only after that median was tested non-zero (dividing first and repairing infinities leaves NaN for 0/0, which then sorts anywhere and breaks low <= centre <= high)")
 	p := mustLoad(c, loadOpts{}, "./benchseries", "./cmd/benchseries", "./benchproc", "./benchfmt", "./benchmath", "./benchunit", "./benchproc/internal/parse")
@@ -68,6 +69,7 @@ func checkC18(c *Ctx) {
 	c18Fresh(c, p)
 	c18Policy(c, p)
 	c18ZeroDen(c, p)
+	c18Aligned(c, p)
 }
 
 // sortsParam: callee sorts parameter k on every return, with no element store afterwards.
@@ -241,6 +243,34 @@ func c18Sorted(c *Ctx, p *Prog, fns []*ssa.Function, inScope func(*ssa.Function)
 		})
 	}
 	c.Floor(R, "sorts of Cell.Values before exposure", ns, 2)
+	// what is exposed is what is sorted: the samples of a comparison are reached through Comparison.Numerator and
+	// Comparison.Denominator, and the duplicate policy may have replaced those cells by freshly concatenated ones — so
+	// the sort has to go through these two fields too (sorting the builder's own cells beforehand leaves a combined
+	// sample unsorted)
+	for _, side := range []string{"Numerator", "Denominator"} {
+		sideF := p.Field("benchseries", "Comparison", side)
+		found := false
+		for _, fn := range fns {
+			if !inScope(fn) {
+				continue
+			}
+			eachInstr(fn, func(_ *ssa.BasicBlock, in ssa.Instruction) {
+				cc, ok := ascendingSortCall(in)
+				if !ok {
+					return
+				}
+				f, base := loadOfField(cc.Args[0])
+				if f != valuesF || base == nil {
+					return
+				}
+				if f2, _ := loadOfField(base); f2 == sideF && sideF != nil {
+					found = true
+				}
+			})
+		}
+		c.Check(found, R, "exposed:"+side+" sorted", "", "the "+strings.ToLower(side)+"'s values are sorted through the comparison that exposes them",
+			"no sort reaches the samples through Comparison."+side+": the cells a series exposes are the ones the duplicate policy installed — under the combine policy freshly concatenated slices — so sorting the builder's cells up front leaves them unsorted, and low/centre/high then depend on how the same measurements were split over experiments")
+	}
 }
 
 func fieldOwnerName(f *types.Var) string {
@@ -1213,4 +1243,98 @@ func c18SeriesPerHash(c *Ctx, p *Prog) {
 		c.Check(perHash, R, fmt.Sprintf("AllComparisonSeries:series-of-hash#%d", n), p.pos(call.Pos()), "the series stamp is looked up under the numerator hash being placed", "inside the loop over a trial's numerator hashes the series stamp does not depend on the hash: when one experiment measured several numerator hashes with different stamps they are all placed at one series point, points and hash pairs go missing and one hash's samples displace another's — which one survives depends on the order results were added")
 	})
 	c.Floor(R, "series stamps normalised per numerator hash", n, 1)
+}
+
+// c18Aligned (C18/R11): a sample value goes into the cell of its own unit. In Builder.Add the unit keys come from
+// ProjectValues(result), one per element of result.Values, and the value appended under the i-th key is
+// result.Values[i]: the loop ranges over the very slice ProjectValues returned (no reslice, no compaction — nothing
+// writes through it), and indexes result.Values with that loop's own counter.
+func c18Aligned(c *Ctx, p *Prog) {
+	const R = "C18/R11"
+	fn := p.Method("benchseries", "Builder", "Add")
+	if fn == nil {
+		c.Undecided(R, "anchor:Builder.Add", "", "not found")
+		return
+	}
+	site := p.pos(fn.Pos())
+	var pv *ssa.Call
+	eachInstr(fn, func(_ *ssa.BasicBlock, in ssa.Instruction) {
+		if call, ok := in.(*ssa.Call); ok && objIs(calleeObj(&call.Call), bprocPkg, "Projection", "ProjectValues") {
+			pv = call
+		}
+	})
+	if pv == nil {
+		c.Undecided(R, "Add:unit-keys", site, "Builder.Add does not obtain the per-value unit keys from ProjectValues")
+		return
+	}
+	valuesF := p.Field("benchfmt", "Result", "Values")
+	n := 0
+	eachInstr(fn, func(_ *ssa.BasicBlock, in ssa.Instruction) {
+		ia, ok := in.(*ssa.IndexAddr)
+		if !ok {
+			return
+		}
+		if f, _ := loadOfField(ia.X); f != valuesF || valuesF == nil {
+			return
+		}
+		n++
+		// the index is the counter of a loop that ranges over pv itself
+		okIdx := false
+		var hdr *ssa.BasicBlock
+		switch x := ia.Index.(type) {
+		case *ssa.BinOp:
+			if ph, ok := x.X.(*ssa.Phi); ok {
+				hdr = ph.Block()
+			}
+		case *ssa.Phi:
+			hdr = x.Block()
+		}
+		if hdr != nil {
+			// the loop's bound is len(pv) and its element reads index pv
+			if ifi, ok := hdr.Instrs[len(hdr.Instrs)-1].(*ssa.If); ok {
+				if cmp, ok := ifi.Cond.(*ssa.BinOp); ok && cmp.Op == token.LSS && cmp.X == ia.Index {
+					if lc, ok := cmp.Y.(*ssa.Call); ok {
+						if bi, ok := lc.Call.Value.(*ssa.Builtin); ok && bi.Name() == "len" && lc.Call.Args[0] == ssa.Value(pv) {
+							okIdx = true
+						}
+					}
+				}
+			}
+		}
+		c.Check(okIdx, R, fmt.Sprintf("Add:value-index#%d", n), p.pos(ia.Pos()), "result.Values is indexed by the counter of the loop over ProjectValues' own result",
+			"the value taken from result.Values is not indexed by the counter of a loop over the slice ProjectValues returned (it was resliced, compacted or replaced): when the unit filter drops an earlier measurement of the line, the remaining unit keys shift against the values and a cell receives another unit's numbers")
+	})
+	// the trial's baseline commit is taken from a baseline-role result: every store to the trial's baseline hash lies
+	// where the result's compare value is known to equal the builder's denominator compare value
+	denValF := p.Field("benchseries", "Builder", "denCompareVal")
+	nb := 0
+	for _, name := range []string{"baselineHash", "baselineHashString"} {
+		fld := p.Field("benchseries", "trial", name)
+		if fld == nil {
+			continue
+		}
+		for _, st := range storesToField(fn, fld) {
+			nb++
+			okRole := false
+			for _, f := range factsAt(st.Block()) {
+				bo, ok := f.Cond.(*ssa.BinOp)
+				if !ok || !((bo.Op == token.EQL && f.True) || (bo.Op == token.NEQ && !f.True)) {
+					continue
+				}
+				fx, _ := loadOfField(bo.X)
+				fy, _ := loadOfField(bo.Y)
+				if denValF != nil && (fx == denValF || fy == denValF) {
+					okRole = true
+				}
+			}
+			c.Check(okRole, R, fmt.Sprintf("Add:%s#%d", name, nb), p.pos(st.Pos()), "recorded from a result in the baseline role",
+				"the trial's baseline commit is recorded outside the branch that handles a baseline-role result (from whichever result creates the trial): with numerator results that lack or differ in the denominator-hash key the reported hash pair then depends on the order in which results were added")
+		}
+	}
+	c.Floor(R, "stores of a trial's baseline hash", nb, 1)
+	ins, what := writesThrough(fn, []ssa.Value{pv})
+	for i, in := range ins {
+		c.Bad(R, fmt.Sprintf("Add:unit-keys-rewritten#%d", i+1), p.pos(in.Pos()), "Builder.Add "+what[i]+" the slice of per-value unit keys: its i-th element no longer belongs to result.Values[i]")
+	}
+	c.Floor(R, "reads of result.Values in Builder.Add", n, 1)
 }
